@@ -23,6 +23,7 @@ from .values import (
     to_number,
 )
 from .errors import JSError, MemoryLimitError, TimeLimitError
+from .jsonlib import json_parse
 
 
 class Context:
@@ -730,14 +731,7 @@ class Context:
         ctx = self  # Reference for closures
 
         def parse_fn(*args):
-            text = to_string(args[0]) if args else ""
-            try:
-                py_value = json.loads(text)
-                return ctx._to_js(py_value)
-            except json.JSONDecodeError as e:
-                from .errors import JSSyntaxError
-
-                raise JSSyntaxError(f"JSON.parse: {e}")
+            return json_parse(to_string(args[0] if args else UNDEFINED))
 
         def stringify_fn(*args):
             value = args[0] if args else UNDEFINED
